@@ -172,6 +172,18 @@ reg(
     "Both sides are float64 results of the repository: tolerance 1e-6 (1e-4 for nu>=5), measured deviations <= 8e-8.",
 )
 
+reg(
+    "C05",
+    "metamorphic + reference monitor over recorded runs: two-pass construction of checkpoint sets A subset B with forced corner layouts; B|A == A (values, step counts, scales, accepted-step traces); each checkpoint vs reference Gaussian interpolation of the recorded step sequence; off-grid marginals; terminal routine",
+    "Pass 1 records the natural step ends; pass 2 places checkpoints exactly at, within eps/2 of and 2 eps after step ends, "
+    "three inside one step and pairs closer than eps, plus random ones (clip off). Both runs execute eagerly behind recording "
+    "proxies. Oracles: subset equality incl. identical accepted-step traces; filter checkpoints = exact-transition prediction "
+    "from the preceding accepted state, smoother checkpoints = 50-digit RTS through step ends united with checkpoints; "
+    "offgrid_marginals of a save-every-step run; solve_adaptive_terminal_values (clip on/off).",
+    "Trusted: pdv/refmodel/{kalman,rtsref}.py. Fixed-point cases with an interpolation gap < 1e-5 are the known finding D14 "
+    "(layouts that create such gaps are only generated in about half of the cases so that the others are judged strictly).",
+)
+
 NOT_BUILT_REASON = "check under construction in this session; not yet registered"
 
 
